@@ -274,11 +274,17 @@ pub fn c09(ctx: &Ctx, rep: &mut Report) {
     for i in 0..n {
         let mut rng = ctx.rng("C09", i);
         let a = if rng.coin() { rng.i32_any() } else { rng.i32_interesting() };
-        let b = match rng.below(4) {
-            0 => rng.i32_any(),
-            1 => rng.i32_interesting(),
-            2 => rng.range(-3, 3) as i32,
-            _ => a.wrapping_add(rng.range(-2, 2) as i32),
+        let b = match rng.below(10) {
+            0 | 1 => rng.i32_any(),
+            2 => rng.i32_interesting(),
+            3 => rng.range(-3, 3) as i32,
+            4 => a.wrapping_add(rng.range(-2, 2) as i32),
+            5 => a,
+            6 => a.wrapping_neg(),
+            7 => -1,
+            // products that wrap many times, quotients around powers of two and ten
+            8 => (1i32 << rng.below(31)) * if rng.coin() { 1 } else { -1 },
+            _ => [10, 100, 1000, 10000, 100000, 1000000, 1000000000, -10, -1000, 3, 7, 255, 256, 65535, 65537][rng.below(15)],
         };
         let op = int_ops[rng.below(int_ops.len())];
         c09_cell(rep, Operand::Int(a), op, &[Operand::Int(b)], i % 7 == 0);
@@ -393,11 +399,20 @@ fn value_expr(rng: &mut Rng, depth: u32) -> AST {
     const NAMES: [&str; 22] = [
         "a", "ab", "abc", "b", "B", "A", "_a", "a_", "a1", "a10", "a2", "z", "Z", "aB", "abcd", "alpha", "zeta", "a_rather_long_field_name", "Zz", "aaaa", "aaab", "b0000",
     ];
-    if depth == 0 || rng.chance(1, 4) {
+    if depth == 0 || (depth < 6 && rng.chance(1, 4)) {
         return match rng.below(4) {
             0 => AST::Null,
             1 => AST::Boolean(rng.coin()),
             _ => AST::Integer(rng.i32_interesting()),
+        };
+    }
+    if depth >= 6 {
+        // deep values are narrow: one child per level
+        let inner = value_expr(rng, depth - 1);
+        return match rng.below(3) {
+            0 => AST::array(AST::Integer(1), if super::super::refsem::is_simple_init(&inner) { AST::block(vec![inner]) } else { inner }),
+            1 => AST::object(AST::Null, vec![AST::variable(idn(NAMES[rng.below(NAMES.len())]), inner)]),
+            _ => AST::object(inner, vec![]),
         };
     }
     match rng.below(3) {
@@ -505,7 +520,8 @@ pub fn c15(ctx: &Ctx, rep: &mut Report) {
         let mut args = Vec::new();
         for _ in 0..k {
             fmt.push_str("~|");
-            args.push(value_expr(&mut rng, 1 + (i % 5) as u32));
+            // mostly depth 1-5, sometimes a narrow value nested 10-16 deep
+            args.push(value_expr(&mut rng, if i % 17 == 0 { 10 + (i % 7) as u32 } else { 1 + (i % 5) as u32 }));
         }
         fmt.push_str("\\n");
         // values are also stored and printed through a variable, a field and an element
